@@ -15,7 +15,10 @@ import (
 	"verifharness/mon"
 )
 
-func init() { reg("C13", "enum", c13enum) }
+func init() {
+	reg("C13", "enum", c13enum)
+	reg("C13", "defaultdev", c13defaultdev)
+}
 
 type c13cfg struct {
 	normal, errs []int
@@ -349,7 +352,24 @@ func c13enum(c *Ctx) {
 				}
 				c.R.Add("nested_records_after_recovery", 1)
 			}
-			if n := plog.Len(); n > 0 {
+			// ... and the writer set can still be edited after the faults (nothing the failure path took is still held; a
+		// call that never returns shows as a crash of this child: the Go runtime reports the deadlock)
+		{
+			c.R.JournalNote(fmt.Sprintf("reconfiguration after the faults: AddWriter / record / RemoveWriter on %s logger", kind))
+			spare := mon.New(log, "SPARE", mon.ShapePlain)
+			lg.AddWriter(spare)
+			log.Reset()
+			if L != slog.OffLevel {
+				lg.LogAttrs(bg, slog.AlwaysLevel, "rec <after-reconfiguration>")
+				if n := len(log.Writes("SPARE")); n != 1 && len(cfg.perLevel[slog.AlwaysLevel]) == 0 {
+					c.R.Violation(idx, "recovery", "C13/recovery/reconfigured/always", fmt.Sprintf("a writer added after the faults stopped received the next normal-class record %d time(s)", n), desc)
+					return
+				}
+			}
+			lg.RemoveWriter(spare)
+			c.R.Add("reconfigurations_after_faults", 1)
+		}
+		if n := plog.Len(); n > 0 {
 				c.R.Violation(idx, "diagnostic", "C13/diagnostic/another-loggers-destination", fmt.Sprintf("the parent's destination received %d record(s) although only its child logged: %s", n, clip(fmtEvents(plog.Events()), 600)), desc)
 				return
 			}
@@ -361,5 +381,109 @@ func c13enum(c *Ctx) {
 				}
 			}
 		} // kind
+	})
+}
+
+// c13defaultdev: loggers that were never given writers fall back to the package default devices (the process's stdout and
+// stderr). One or both of them are made to fail for real (fd redirected onto /dev/full: every write returns ENOSPC).
+func c13defaultdev(c *Ctx) {
+	fds, err := captureFds()
+	if err != nil {
+		c.R.Violation(-1, "harness", "C13/harness", err.Error(), nil)
+		return
+	}
+	full, err := os.OpenFile("/dev/full", os.O_WRONLY, 0)
+	if err != nil {
+		c.R.Add("dev_full_not_available", 1)
+		return
+	}
+	save1, _ := syscall.Dup(1)
+	save2, _ := syscall.Dup(2)
+	slog.AddFlags(slog.LnoInterrupt)
+	slog.RemoveFlags(slog.Lcaller)
+	savedDefault := slog.Default()
+	c.Each(func(idx int, r *gen.R) {
+		k := idx
+		which := k % 3 // 0: stdout full, 1: stderr full, 2: both
+		k /= 3
+		kind := []string{"fresh", "child-of-fresh", "package-functions"}[k%3]
+		k /= 3
+		L := []slog.Level{slog.AlwaysLevel, slog.ErrorLevel, slog.InfoLevel}[k%3]
+		defer func() { _ = syscall.Dup2(save1, 1); _ = syscall.Dup2(save2, 2); slog.SetDefault(savedDefault) }()
+		_ = syscall.Dup2(save1, 1)
+		_ = syscall.Dup2(save2, 2)
+		if which != 1 {
+			_ = syscall.Dup2(int(full.Fd()), 1)
+		}
+		if which != 0 {
+			_ = syscall.Dup2(int(full.Fd()), 2)
+		}
+		var lgL slog.Logger = slog.New(fmt.Sprintf("dd%d", idx))
+		lg := lgL.Root()
+		if kind == "child-of-fresh" {
+			lg = lg.New("kid")
+		}
+		lg.SetColorMode(false)
+		lg.SetLevel(L)
+		if kind == "package-functions" {
+			slog.SetDefault(lg)
+		}
+		desc := map[string]any{"full_device": []string{"stdout", "stderr", "both"}[which], "logger": kind, "logger_level": L.String()}
+		for ci, sev := range []slog.Level{slog.InfoLevel, slog.ErrorLevel, slog.WarnLevel, slog.AlwaysLevel, slog.DebugLevel, slog.ErrorLevel, slog.InfoLevel} {
+			id := fmt.Sprintf("<dd%d-%d>", idx, ci)
+			m1, m2 := fds.mark()
+			_, _ = m1, m2
+			panicked := ""
+			func() {
+				defer func() {
+					if e := recover(); e != nil {
+						panicked = fmt.Sprint(e)
+					}
+				}()
+				c.R.JournalNote(fmt.Sprintf("defaultdev %v sev=%v %s", desc, sev, id))
+				if kind == "package-functions" {
+					switch sev {
+					case slog.InfoLevel:
+						slog.Info("rec "+id, "k", ci)
+					case slog.ErrorLevel:
+						slog.Error("rec "+id, "k", ci)
+					case slog.WarnLevel:
+						slog.Warn("rec "+id, "k", ci)
+					case slog.DebugLevel:
+						slog.Debug("rec "+id, "k", ci)
+					default:
+						slog.Print("rec "+id, "k", ci)
+					}
+				} else {
+					lg.LogAttrs(bg, sev, "rec "+id, "k", ci)
+				}
+			}()
+			c.R.Add("calls_towards_a_full_default_device", 1)
+			if panicked != "" {
+				c.R.Violation(idx, "returns-normally", "C13/returns-normally/default-device/"+className(sev), fmt.Sprintf("a call on a logger without writers of its own panicked while the process's %s is full: %s", desc["full_device"], panicked), desc)
+				return
+			}
+		}
+		// the devices work again: records arrive
+		_ = syscall.Dup2(int(fds.f1.Fd()), 1)
+		_ = syscall.Dup2(int(fds.f2.Fd()), 2)
+		m1, m2 := fds.mark()
+		id := fmt.Sprintf("<ddh%d>", idx)
+		if kind == "package-functions" {
+			slog.Print("rec " + id)
+			slog.Error("rec " + id)
+		} else {
+			lg.LogAttrs(bg, slog.AlwaysLevel, "rec "+id)
+			lg.LogAttrs(bg, slog.ErrorLevel, "rec "+id)
+		}
+		b1, b2 := fds.since(m1, m2)
+		if bytes.Count(b1, []byte(id)) != 1 || bytes.Count(b2, []byte(id)) != 1 || bytes.Contains(b1, []byte(diagText)) || bytes.Contains(b2, []byte(diagText)) {
+			c.R.Violation(idx, "recovery", "C13/recovery/default-device", fmt.Sprintf("after the default devices work again: stdout got %q, stderr got %q (expected the Always record once on stdout, the Error record once on stderr, no diagnostic)", clip(string(b1), 300), clip(string(b2), 300)), desc)
+			return
+		}
+		c.R.NonTrivial("defaultdev", idx)
+		if c.R.WantSample() {
+			c.R.Sample(idx, desc, "every call returned while the device was full; normal delivery once it worked again")
+		}
 	})
 }
